@@ -12,6 +12,7 @@
 package main
 
 import (
+	"com.tuntun.rangers/node/src/service"
 	"crypto/sha256"
 	"encoding/hex"
 	"encoding/json"
@@ -20,6 +21,7 @@ import (
 	"math/big"
 	"os"
 	"path/filepath"
+	"runtime"
 	"strings"
 
 	"com.tuntun.rangers/node/src/common"
@@ -306,6 +308,115 @@ func scratchMemoryRuns(n int, id int) [][]string {
 	return runs
 }
 
+// stakeChangeWithRewardRuns: two proposers apply; once both count for the reward split (from their
+// apply height) a block changes the stake of one of them (an add-stake top-up after many filler
+// transfers) - the reward of that very block is computed from the stakes: whether it sees the
+// top-up must not depend on scheduling. Executed with different GOMAXPROCS settings.
+func stakeChangeWithRewardRuns(n int, id int) [][]string {
+	runs := [][]string{}
+	for r := 0; r < n; r++ {
+		ds := []string{}
+		func() {
+			defer func() {
+				if e := recover(); e != nil {
+					ds = append(ds, fmt.Sprintf("PANIC: %v", e))
+				}
+			}()
+			old := runtime.GOMAXPROCS(0)
+			if r%4 == 0 {
+				runtime.GOMAXPROCS(1)
+			}
+			defer runtime.GOMAXPROCS(old)
+			st := execdrv.FreshState()
+			warm(st, r, nil)
+			list := []*types.Transaction{}
+			ids := [][]byte{}
+			for i, sk := range []uint64{2000, 2500} {
+				mid := sha256.Sum256([]byte(fmt.Sprintf("c01-stk-%d-%d", id, i)))
+				ids = append(ids, mid[:])
+				m := types.Miner{Id: mid[:], PublicKey: make([]byte, 128), VrfPublicKey: make([]byte, 32), Type: 1, Stake: sk,
+					Account: common.FromHex(execdrv.Funded[i])}
+				m.PublicKey[0], m.VrfPublicKey[0] = 1, 1
+				d, _ := json.Marshal(m)
+				list = append(list, execdrv.NewTx(types.TransactionTypeMinerApply, execdrv.Funded[i], "", string(d), "", uint64(i+1), fmt.Sprintf("c01-stk-%d-%d", id, i)))
+			}
+			d0, _ := digest(execdrv.Execute(st, 1, list))
+			ds = append(ds, d0)
+			// block 305: fillers, then the top-up of the second proposer, then more fillers
+			blk := []*types.Transaction{}
+			for k := 0; k < 40; k++ {
+				tgt, _ := json.Marshal(map[string]types.TransferData{execdrv.Funded[(k+1)%3]: {Balance: "0.01"}})
+				blk = append(blk, execdrv.NewTx(types.TransactionTypeOperatorEvent, execdrv.Funded[k%3], "", "", string(tgt), uint64(100+k), fmt.Sprintf("c01-stk-%d-f%d", id, k)))
+				if k == 25 {
+					m := types.Miner{Id: ids[1], Stake: 500}
+					d, _ := json.Marshal(m)
+					blk = append(blk, execdrv.NewTx(types.TransactionTypeMinerAdd, execdrv.Funded[1], "", string(d), "", 900, fmt.Sprintf("c01-stk-%d-add", id)))
+				}
+			}
+			for _, h := range []uint64{305, 306} {
+				var l []*types.Transaction
+				if h == 305 {
+					l = blk
+				}
+				d, _ := digest(execdrv.Execute(st, h, l))
+				ds = append(ds, d)
+			}
+		}()
+		runs = append(runs, ds)
+	}
+	return runs
+}
+
+// executedStoreHistoryRuns: the same block on the same parent state, once on a node whose pool has
+// never seen its transactions and once on a node whose executed store already holds them (a node
+// that had adopted them on another branch, or re-executes after a restart). Execution depends on
+// the parent state, the header and the transaction list only.
+func executedStoreHistoryRuns(n int, id int) [][]string {
+	runs := [][]string{}
+	pool := service.GetTransactionPool()
+	for r := 0; r < n; r++ {
+		ds := []string{}
+		func() {
+			defer func() {
+				if e := recover(); e != nil {
+					ds = append(ds, fmt.Sprintf("PANIC: %v", e))
+				}
+			}()
+			st := execdrv.FreshState()
+			warm(st, r, nil)
+			list := []*types.Transaction{}
+			for k := 0; k < 3; k++ {
+				tgt, _ := json.Marshal(map[string]types.TransferData{execdrv.Funded[(k+1)%3]: {Balance: "0.5"}})
+				list = append(list, execdrv.NewTx(types.TransactionTypeOperatorEvent, execdrv.Funded[k%3], "", "", string(tgt), uint64(1+k), fmt.Sprintf("c01-exs-%d-%d", id, k)))
+			}
+			cd, _ := json.Marshal(types.ContractData{GasLimit: "300000", TransferValue: "0", AbiData: "0x600160005500"})
+			list = append(list, execdrv.NewTx(types.TransactionTypeContract, execdrv.Funded[0], "", string(cd), "", 9, fmt.Sprintf("c01-exs-%d-c", id)))
+			hdr := &types.BlockHeader{Height: 7, Hash: common.BytesToHash(common.Sha256([]byte(fmt.Sprintf("c01-exs-blk-%d", id))))}
+			if r%2 == 1 {
+				rs := types.Receipts{}
+				for _, t := range list {
+					rc := types.NewReceipt(nil, false, 0, 7, "", t.Source, "")
+					rc.TxHash = t.Hash
+					rs = append(rs, rc)
+				}
+				pool.MarkExecuted(hdr, rs, list, nil)
+			}
+			d, _ := digest(execdrv.Execute(st, 7, list))
+			ds = append(ds, d)
+			if r%2 == 1 {
+				pool.UnMarkExecuted(&types.Block{Header: hdr, Transactions: list})
+				ev := []common.Hash{}
+				for _, t := range list {
+					ev = append(ev, t.Hash)
+				}
+				pool.MarkExecuted(&types.BlockHeader{}, nil, nil, ev)
+			}
+		}()
+		runs = append(runs, ds)
+	}
+	return runs
+}
+
 // castThenVerify: a proposer casts a block whose execution hits the wall-clock cut-off
 // (situation "casting", 3 s); the transaction list it reports, executed by a verifier on a fresh
 // state of the same parent, must give the proposer's state root, receipts and evicted list.
@@ -337,6 +448,8 @@ func main() {
 	cast := flag.Bool("cast", false, "run the casting cut-off scenario (takes > 3 s)")
 	destroyed := flag.Int("destroyed-funded", 0, "runs of the destroyed-then-funded input (0: skip)")
 	scratchMem := flag.Int("scratch-memory", 0, "runs of the uninitialised-memory reader input (0: skip)")
+	stakeReward := flag.Int("stake-reward", 0, "runs of the stake-change-with-reward input (0: skip)")
+	execStore := flag.Int("executed-store", 0, "runs of the executed-store-history input (0: skip)")
 	flag.Parse()
 	if *scratch == "" {
 		vutil.Fatalf("--scratch required")
@@ -420,6 +533,20 @@ func main() {
 			"runs": runs, "transferOk": []bool{}})
 		nIn++
 		nRuns += *scratchMem
+	}
+	if *stakeReward > 0 {
+		runs := stakeChangeWithRewardRuns(*stakeReward, 17)
+		tr.Emit(map[string]interface{}{"event": "Replicas", "class": "stake-change-with-reward", "bal": 0, "targets": []target{},
+			"runs": runs, "transferOk": []bool{}})
+		nIn++
+		nRuns += *stakeReward
+	}
+	if *execStore > 0 {
+		runs := executedStoreHistoryRuns(*execStore, 19)
+		tr.Emit(map[string]interface{}{"event": "Replicas", "class": "executed-store-history", "bal": 0, "targets": []target{},
+			"runs": runs, "transferOk": []bool{}})
+		nIn++
+		nRuns += *execStore
 	}
 	if *cast {
 		r := castThenVerify(9)
